@@ -15,13 +15,15 @@ DEMO=$(ls $OUT/demo/*.rs | head -1); DEMONAME=$(basename $DEMO .rs)
 # locate the crate the demo belongs to from the README (default star_frame)
 PKG=$(grep -ho "\-p [a-z_]*" $OUT/demo/README* 2>/dev/null | head -1 | cut -d' ' -f2); PKG=${PKG:-star_frame}
 FEAT=$(grep -ho "\-\-features [a-z_,]*" $OUT/demo/README* 2>/dev/null | head -1); 
+# a demo may need the framework's own verification hooks (cfg flag) - only the demo runs get it, the suite runs with the guard off
+DEMOFLAGS=""; if grep -q "cfg star_frame_verif" $OUT/demo/README* 2>/dev/null; then DEMOFLAGS="--cfg star_frame_verif"; fi
 mkdir -p $WT/$PKG/tests; cp $DEMO $WT/$PKG/tests/$DEMONAME.rs
 echo "== demo WITH the change" >> $LOG
 git -C $WT diff --stat >> $LOG
-cargo test -p $PKG $FEAT --test $DEMONAME --offline >> $LOG 2>&1; WITH=$?
+RUSTFLAGS="$DEMOFLAGS" cargo test -p $PKG $FEAT --test $DEMONAME --offline >> $LOG 2>&1; WITH=$?
 echo "== demo WITHOUT the change" >> $LOG
 # (git stash is shared by all worktrees of a repository: reverse-apply the patch instead)
-git -C $WT diff > $DST/.wt.diff; git -C $WT apply -R $DST/.wt.diff; cargo test -p $PKG $FEAT --test $DEMONAME --offline >> $LOG 2>&1; WITHOUT=$?; git -C $WT apply $DST/.wt.diff
+git -C $WT diff > $DST/.wt.diff; git -C $WT apply -R $DST/.wt.diff; RUSTFLAGS="$DEMOFLAGS" cargo test -p $PKG $FEAT --test $DEMONAME --offline >> $LOG 2>&1; WITHOUT=$?; git -C $WT apply $DST/.wt.diff
 if ! diff -q <(git -C $WT diff) $OUT/patch.diff > /dev/null; then echo "NOTE: the worktree diff differs textually from out/patch.diff (kept: the worktree's)" >> $LOG; git -C $WT diff > $DST/patch.diff; fi
 rm -f $DST/.wt.diff
 rm -f $WT/$PKG/tests/$DEMONAME.rs
